@@ -3,7 +3,7 @@
 From Coq Require Import List Arith Bool Lia ZArith Ring.
 Import ListNotations.
 Require Import C07.Model C07.ProofsBase C07.ProofsRouting C07.ProofsSizes C07.ProofsW C07.ProofsLeaf C07.ProofsToeplitz
-  C07.ProofsComposite C07.ProofsMain.
+  C07.ProofsComposite C07.ProofsMain C07.ProofsBlocks C07.ProofsMasked C07.ProofsInterpAlg C07.ProofsInterp.
 
 Section Induct.
 Context {K : RingOps} {Kth : RingLaws K}.
@@ -242,6 +242,21 @@ Proof.
   - (* ConstantMul *)
     cbn [lin] in Hlin. pose proof Hwf as Hwf'. cbn [wf] in Hwf'. destruct Hwf' as [Hwb _].
     apply coeff_CMul; auto.
+  - (* Interpolated *)
+    cbn [lin] in Hlin. pose proof Hwf as Hwf'. cbn [wf] in Hwf'. destruct Hwf' as [Hwb _].
+    apply coeff_Interpolated; auto.
+  - (* Masked *)
+    cbn [lin] in Hlin. pose proof Hwf as Hwf'. cbn [wf] in Hwf'. destruct Hwf' as [Hwb _].
+    apply coeff_Masked; auto.
+  - (* BlockDiag *)
+    cbn [lin] in Hlin. pose proof Hwf as Hwf'. cbn [wf] in Hwf'. destruct Hwf' as [Hwb _].
+    apply coeff_BlockDiag; auto.
+  - (* BlockInterleaved *)
+    cbn [lin] in Hlin. pose proof Hwf as Hwf'. cbn [wf] in Hwf'. destruct Hwf' as [Hwb _].
+    apply coeff_BlockInterleaved; auto.
+  - (* SumBatch *)
+    cbn [lin] in Hlin. pose proof Hwf as Hwf'. cbn [wf] in Hwf'. destruct Hwf' as [Hwb _].
+    apply coeff_SumBatch; auto.
 Qed.
 
 End Induct.
